@@ -264,6 +264,62 @@ def stack5_reach(*a):
     return LAST[4] is None and sum(1 for k, n in LAST[5] if k == 'su') >= 5 and sum(1 for k, n in LAST[5] if k in ('td', 'td_nie')) >= 5
 
 
+PERM4 = list(itertools.permutations(range(4)))
+POOL4 = ['La', 'Lb', 'Lc', 'Ld']
+OWN4 = [0b1100, 0b1111, 0b1110, 0b1101]
+
+
+def stackmi(p, bo, which, own, tdk):
+    """Multiple inheritance with a follow-up layer that needs only one of the bases: roles 0 = A, 1 = B, 2 = AB(A, B) /
+    AB(B, A) (bo), 3 = a layer derived from B (which 0) or from A (which 1); every naming of the four layers.  When the run
+    moves from AB to the follow-up layer, the base it does not need has to be torn down although it was set up first."""
+    global LAST
+    W.reset()
+    naming = pick(PERM4, p)
+    bo, which = ci(bo, 0, 1), ci(which, 0, 1)
+    own = pick(OWN4, own)
+    tdk = ci(tdk, 0, 2)          # 0 none, 1 A's tearDown raises, 2 AB's tearDown raises
+    names = [POOL4[naming[i]] for i in range(4)]
+    with untraced():
+        td = [0] * 4
+        if tdk == 1:
+            td[0] = 1
+        elif tdk == 2:
+            td[2] = 1
+        A = W.mk_layer(names[0], (), td=td[0], hooks='st')
+        B = W.mk_layer(names[1], (), hooks='st')
+        AB = W.mk_layer(names[2], (A, B) if bo == 0 else (B, A), td=td[2], hooks='st')
+        C = W.mk_layer(names[3], (B,) if which == 0 else (A,), hooks='st')
+        layers = [A, B, AB, C]
+        bases = {names[0]: set(), names[1]: set(), names[2]: {names[0], names[1]}, names[3]: {names[1] if which == 0 else names[0]}}
+        anc = closure(bases)
+        lt = []
+        for i in (3, 0, 2, 1):
+            if own >> i & 1:
+                lt.append((layers[i], [W.mk_test('t%sa' % names[i][1], W.PASS), W.mk_test('t%sb' % names[i][1], W.PASS)]))
+    o = RW.options([])
+    r = RW.make_runner(o, lt)
+    r.run_tests()
+    with untraced():
+        su_fault = {n: 0 for n in names}
+        td_fault = dict(zip(names, td))
+        ev = pid_events(W.TRACE, 0, td_fault)
+        why = check_pid(ev, anc, su_fault, set(names))
+        if why is None:
+            ran = [n for k, n in ev if k == 'test']
+            for i in range(4):
+                if own >> i & 1 and (ran.count('t%sa' % names[i][1]), ran.count('t%sb' % names[i][1])) != (1, 1):
+                    why = 'tests of layer %s ran %r times' % (names[i], (ran.count('t%sa' % names[i][1]), ran.count('t%sb' % names[i][1])))
+                    break
+    LAST = (tuple(names), bo, which, own, tdk, why, tuple(ev))
+    return why is None
+
+
+def stackmi_reach(*a):
+    stackmi(*a)
+    return LAST[5] is None and sum(1 for k, n in LAST[6] if k == 'td') >= 4
+
+
 # ---------------------------------------------------------------- loop-back
 
 LB_TESTS = {}
@@ -404,6 +460,13 @@ SPEC = {
                                                      'thorough': _BL + ' and not su1 and j == 0 and not e10 and not e20 and not e21'},
          'timeout': {'quick': 240, 'thorough': 850},
          'fidelity': [_vl(), _vl(j=2, td0=0, td2=1)]},
+        {'name': 'stackmi', 'fn': 'stackmi', 'params': [('p', 'int'), ('bo', 'int'), ('which', 'int'), ('own', 'int'), ('tdk', 'int')], 'call': 'p, bo, which, own, tdk',
+         'bounds': {'quick': '0 <= p < 24 and 0 <= bo <= 1 and 0 <= which <= 1 and 0 <= own < 4 and 0 <= tdk <= 2 and own <= 1 and tdk == 0',
+                    'thorough': '0 <= p < 24 and 0 <= bo <= 1 and 0 <= which <= 1 and 0 <= own < 4 and 0 <= tdk <= 2'},
+         'slices': {'quick': ['p %% 4 == %d' % m for m in range(4)], 'thorough': ['p %% 4 == %d and own == %d' % (m, w_) for m in range(4) for w_ in range(4)]},
+         'reach': 'stackmi_reach', 'reach_bounds': {'quick': 'p == 0 and bo == 0 and which == 0 and own == 1 and tdk == 0', 'thorough': 'p == 0 and bo == 0 and which == 0 and own == 1 and tdk == 0'},
+         'timeout': {'quick': 240, 'thorough': 850},
+         'fidelity': [dict(p=0, bo=0, which=0, own=1, tdk=0), dict(p=17, bo=1, which=1, own=0, tdk=1), dict(p=23, bo=0, which=1, own=3, tdk=2)]},
         {'name': 'stack5', 'fn': 'stack5', 'params': [('p', 'int'), ('topo', 'int'), ('own', 'int'), ('tdk', 'int')], 'call': 'p, topo, own, tdk',
          'bounds': {'quick': '0 <= p < 120 and 0 <= topo <= 2 and 0 <= own < 4 and 0 <= tdk <= 2 and own == 0 and tdk == 0',
                     'thorough': '0 <= p < 120 and 0 <= topo <= 2 and 0 <= own < 4 and 0 <= tdk <= 2'},
